@@ -198,6 +198,13 @@ def run(chk):
         picked = [c for c in picked if not any(e['t'] == 'RamanFiber' for e in c['g'])
                   or (c['s']['padding'] > 0 and c['s']['eol'] == 0
                       and (c['s']['powerMode'] or any(e['t'] == 'Edfa' for e in c['g'])))]
+    if tier == 'quick':
+        # chains without any user setting that a reload could lose or double (no user amplifier / attenuator / fibre
+        # parameter, no Raman, nothing that splits at 80..151 km) run under a quarter of the settings (max_length 150)
+        def plain(c):
+            return not any(e['t'] in ('Edfa', 'RamanFiber') or e.get('ai', 0) not in (0, NONE) or e.get('o') or e.get('ct')
+                           or e['l'] in (95000, 151000) for e in c['g'])
+        picked = [c for c in picked if not plain(c) or c['s']['maxLen'] > 100000]
     if tier == 'quick':       # a 1200 km link is 2 x 13..15 spans, six designs each: half of its settings
         picked = [c for c in picked if not any(e['l'] >= 1200000 for e in c['g']) or c['s']['padding'] > 0]
     du.reset_sim()
